@@ -16,6 +16,14 @@
 ; textual form of a socket address as printed by net.Addr.String: always resolvable again
 (declare-fun isSockAddr (String) Bool)
 ;@ghost W (Array Int String)
+; byte streams: RS = bytes a reader has not delivered yet (for a network connection: all bytes it will ever
+; deliver - a prophecy), RU = the byte UnreadByte would restore ("" if none), RE = number of reads made on a
+; bufio.Reader (slices handed out by ReadLine are valid only while it is unchanged)
+;@ghost RS (Array Int String)
+;@ghost RU (Array Int String)
+;@ghost RE (Array Int Int)
+;@ghost limitMarks (Seq String)
+;@ghost pmInput (Seq String)
 ;@ghost now Int
 ;@ghost held (Array Int Bool)
 
@@ -49,6 +57,9 @@
 ;@chunk lower lower
 (declare-fun lower (String) String)
 (assert (forall ((s String)) (! (and (= (lower (lower s)) (lower s)) (= (str.len (lower s)) (str.len s))) :pattern ((lower s)))))
+(assert (and (= (lower "TCP") "tcp") (= (lower "UDP") "udp") (= (lower "Tcp") "tcp") (= (lower "Udp") "udp")))
+; a string of printable ASCII characters none of which is an upper-case letter is its own lower-case form
+(assert (forall ((s String)) (! (=> (str.in_re s (re.* (re.union (re.range " " "@") (re.range "[" "~")))) (= (lower s) s)) :pattern ((lower s)))))
 
 ;@chunk split split
 (declare-fun split (String String) Sq_String)
@@ -374,3 +385,48 @@
   (ite (or (str.< fa ta) (and (= fa ta) (str.< ft tt)))
        (str.++ c "-" ft "-" fa "-" tt "-" ta)
        (str.++ c "-" tt "-" ta "-" ft "-" fa)))
+
+;@chunk tkey tkey stripBr ctExpireAt unexpiredAt
+; key of the client-transport table: protocol://host:port, plus -<transaction> for a TCP entry bound to a transaction
+(declare-fun tkey (String String Int String) String)
+(define-fun stripBr ((h String)) String
+  (ite (and (>= (str.len h) 2) (str.prefixof "[" h) (str.suffixof "]" h)) (str.substr h 1 (- (str.len h) 2)) h))
+; expiry instant (unix seconds) of a leaf client transport: only TCP transports wrapping an accepted connection expire
+(define-fun ctExpireAt ((H_TCPClientTransport_expire (Array Int Int)) (a Any)) Int
+  (ite (= (tyOf a) TID__TCPClientTransport) (select H_TCPClientTransport_expire (refOf a)) 0))
+; a fail-over entry none of whose transports is past its expiry at unix time t
+(define-fun unexpiredAt ((H_TCPClientTransport_expire (Array Int Int)) (H_FailOverClientTransport_primary (Array Int Any)) (H_FailOverClientTransport_secondary (Array Int Any)) (e Int) (t Int)) Bool
+  (and (or (<= (ctExpireAt H_TCPClientTransport_expire (select H_FailOverClientTransport_primary e)) 0) (<= t (ctExpireAt H_TCPClientTransport_expire (select H_FailOverClientTransport_primary e))))
+       (or (<= (ctExpireAt H_TCPClientTransport_expire (select H_FailOverClientTransport_secondary e)) 0) (<= t (ctExpireAt H_TCPClientTransport_expire (select H_FailOverClientTransport_secondary e))))))
+;@ghost gtProto (Seq String)
+;@ghost gtHost (Seq String)
+;@ghost gtPort (Seq Int)
+;@ghost gtTid (Seq String)
+;@ghost gtOk (Seq Bool)
+;@ghost gtRes (Seq Int)
+;@ghost rtProto (Seq String)
+;@ghost rtHost (Seq String)
+;@ghost rtPort (Seq Int)
+;@ghost rtTid (Seq String)
+;@ghost fosends (Seq Int)
+
+;@chunk tkeydef tkeyDef
+; definition of the table key (kept out of the queries that only compare keys)
+(define-fun tkeyDef () Bool true)
+(assert (forall ((proto String) (host String) (port Int) (tid String))
+  (! (= (tkey proto host port tid)
+        (str.++ proto "://" (joinHostPort host (itoa port)) (ite (and (= proto "tcp") (not (= tid ""))) (str.++ "-" tid) "")))
+     :pattern ((tkey proto host port tid)))))
+
+
+;@chunk stream lineOf afterLine dropCR isWsStr isWsCode
+; the next line of a byte stream as ReadLine delivers it (line ending dropped), and what follows it
+(define-fun dropCR ((w String)) String (ite (str.suffixof "\u{d}" w) (str.substr w 0 (- (str.len w) 1)) w))
+(declare-fun lineOf (String) String)
+(declare-fun afterLine (String) String)
+(assert (forall ((s String)) (! (= (lineOf s) (ite (>= (str.indexof s "\u{a}" 0) 0) (dropCR (str.substr s 0 (str.indexof s "\u{a}" 0))) s)) :pattern ((lineOf s)))))
+(assert (forall ((s String)) (! (= (afterLine s) (ite (>= (str.indexof s "\u{a}" 0) 0) (str.substr s (+ (str.indexof s "\u{a}" 0) 1) (str.len s)) "")) :pattern ((afterLine s)))))
+(define-fun isWsCode ((c Int)) Bool (or (= c 9) (= c 10) (= c 11) (= c 12) (= c 13) (= c 32)))
+; strings made of the white space skipWhiteSpace swallows between messages
+(define-fun isWsStr ((s String)) Bool
+  (str.in_re s (re.* (re.union (str.to_re "\u{9}") (str.to_re "\u{a}") (str.to_re "\u{b}") (str.to_re "\u{c}") (str.to_re "\u{d}") (str.to_re " ")))))
